@@ -807,6 +807,56 @@ Section Concrete.
     - intros q r Hq Hr. apply H; apply Qh_In; assumption.
     - intros Hneed q Hq. apply H; apply Qh_In; assumption.
   Qed.
+  Lemma somes_In q l : In q (somes l) <-> In (Some q) l.
+  Proof.
+    induction l as [|[q'|] l IH]; simpl; [tauto| |].
+    - rewrite IH. split; [intros [H|H]; [left; congruence|right; exact H]|intros [H|H]; [left; congruence|right; exact H]].
+    - rewrite IH. split; [intro H; right; exact H|intros [H|H]; [discriminate|exact H]].
+  Qed.
+
+  (* the observable partition (retain_names=True): every block is non-empty and is exactly the set of
+     kept states that accept the same words as any of its members; every kept state that is not
+     equivalent to the trap lies in a block *)
+  Theorem h_blocks_spec : exists Pf, h_hopcroft m K sched sord = Some Pf /\
+    (forall B, In B (h_blocks m K Pf) -> B <> [] /\
+       forall q1, In q1 B -> forall q2, In q2 B <->
+         (In q2 K /\ forall w, dfa_acc_from m (Some q1) w = dfa_acc_from m (Some q2) w)) /\
+    (forall q, In q K -> (exists w, dfa_acc_from m (Some q) w = true) -> exists B, In B (h_blocks m K Pf) /\ In q B).
+  Proof.
+    destruct h_hopcroft_nerode as [Pf [E [Hwf Hn]]]. exists Pf. split; [exact E|].
+    assert (Hmem : forall i q, In (Some q) (members oeqb Qh Pf i) <-> In q K /\ cls Pf (Some q) = i).
+    { intros i q. rewrite (members_In (option nat) oeqb Qh Pf i (Some q)). rewrite (Qh_In (Some q)). tauto. }
+    assert (Hacc : forall q1 q2, In q1 K -> In q2 K ->
+              (cls Pf (Some q1) = cls Pf (Some q2) <-> forall w, dfa_acc_from m (Some q1) w = dfa_acc_from m (Some q2) w)).
+    { intros q1 q2 H1 H2. rewrite (Hn (Some q1) (Some q2)); [|apply Qh_In; exact H1|apply Qh_In; exact H2].
+      split; intros H w; [rewrite <- (kacc m K HK w q1 H1), <- (kacc m K HK w q2 H2)|rewrite (kacc m K HK w q1 H1), (kacc m K HK w q2 H2)]; apply H. }
+    split.
+    - intros B HB. unfold h_blocks in HB. apply in_map_iff in HB. destruct HB as [Bx [<- HBx]].
+      apply filter_In in HBx. destruct HBx as [HBx Hnt]. unfold get_sets in HBx. apply in_map_iff in HBx.
+      destruct HBx as [i [<- Hi]]. split.
+      + destruct (wf_inh _ _ _ _ Hwf i Hi) as [x [Hx Ex]]. destruct x as [q|].
+        * intro E0. assert (Hq : In q (somes (members oeqb Qh Pf i))).
+          { apply somes_In. apply Hmem. split; [apply Qh_In in Hx; exact Hx|exact Ex]. }
+          rewrite E0 in Hq. destruct Hq.
+        * exfalso. apply negb_true_iff in Hnt.
+          assert (T : gmem oeqb None (members oeqb Qh Pf i) = true).
+          { apply (gmem_In oeqb (eqb_opt_ok _ eqb_nat_ok)). apply (members_In (option nat) oeqb). split; assumption. }
+          congruence.
+      + intros q1 H1 q2. apply somes_In in H1. apply Hmem in H1. destruct H1 as [H1 E1].
+        rewrite somes_In, Hmem. split.
+        * intros [H2 E2]. split; [exact H2|]. apply Hacc; [exact H1|exact H2|congruence].
+        * intros [H2 H]. split; [exact H2|]. rewrite <- E1. symmetry. apply Hacc; assumption.
+    - intros q Hq [w Hw]. set (i := cls Pf (Some q)).
+      exists (somes (members oeqb Qh Pf i)). split.
+      + unfold h_blocks. apply in_map. apply filter_In. split.
+        * unfold get_sets. apply in_map. apply (wf_in _ _ _ _ Hwf (Some q)). apply Qh_In. exact Hq.
+        * apply negb_true_iff. destruct (gmem oeqb None (members oeqb Qh Pf i)) eqn:Eg; [exfalso|reflexivity].
+          apply (gmem_In oeqb (eqb_opt_ok _ eqb_nat_ok)) in Eg. apply (members_In (option nat) oeqb) in Eg.
+          destruct Eg as [HN EN]. unfold i in EN. symmetry in EN.
+          pose proof (proj1 (Hn (Some q) None (proj2 (Qh_In (Some q)) Hq) HN) EN w) as T.
+          rewrite (kacc m K HK w q Hq), Hw in T. rewrite (krun_None m K w) in T. discriminate.
+      + apply somes_In. apply Hmem. split; [exact Hq|reflexivity].
+  Qed.
 End Concrete.
 
 (* DFA.minify / DFA.to_partial(minify=True) with the Hopcroft refinement: for every schedule and
@@ -825,3 +875,9 @@ Proof.
   intros Hv Hs. unfold hto_partial_min_full, to_partial_min_full. destruct (kept_live_good m Hv) as [K [E [HK _]]].
   rewrite E. simpl. apply hminify_core_eq; assumption.
 Qed.
+
+Lemma kept_minify_goodK m K : valid_dfa m = true -> kept_minify m = Ok K -> goodK m K.
+Proof. intros Hv E. destruct (kept_minify_good m Hv) as [K' [E' HK]]. rewrite E in E'. inversion E'; subst. exact HK. Qed.
+
+Lemma kept_live_goodK m K : valid_dfa m = true -> kept_live m = Ok K -> goodK m K.
+Proof. intros Hv E. destruct (kept_live_good m Hv) as [K' [E' [HK _]]]. rewrite E in E'. inversion E'; subst. exact HK. Qed.
